@@ -94,7 +94,8 @@ impl<R: Read> BufRead for LowMarkBufReader<R> {
                         let new_cap = new_cap + offset;
                         //assert!(new_cap % CACHE_LINE_SIZE == 0);
                         //println!("moving {} bytes", in_buf);
-                        self.buf.copy_within(self.pos..self.cap, offset);
+                        // keep the `offset` bytes before pos as well: seek accepts every position from abs_pos on
+                        self.buf.copy_within(self.pos - offset..self.cap, 0);
                         self.cap = new_cap;
                         self.abs_pos += self.pos - offset;
                         self.pos = offset;
